@@ -2,6 +2,7 @@
 package main
 
 import (
+	"bytes"
 	"crypto/sha256"
 	"crypto/tls"
 	"crypto/x509"
@@ -9,6 +10,7 @@ import (
 	"io"
 	"net"
 	"net/url"
+	"strconv"
 	"strings"
 	"sync"
 	"time"
@@ -28,7 +30,21 @@ type world struct {
 	up      *lib.Origin
 }
 
+// blob is the body of /blob/<k>: 192 KiB that differ for every k
+func blob(k int) []byte {
+	b := make([]byte, 192<<10)
+	for i := range b {
+		b[i] = byte((uint32(i)*2654435761 + uint32(k)*40503) >> 11)
+	}
+	return b
+}
+
 func echo(oc *lib.OConn, req *lib.Msg) lib.Action {
+	if strings.HasPrefix(req.Target, "/blob/") {
+		k, _ := strconv.Atoi(strings.TrimPrefix(req.Target, "/blob/"))
+		oc.Write(lib.SimpleResponse(200, "OK", []lib.Field{{"X-Vid", req.Get1("X-Vid")}, {"X-Peer", oc.Peer.Name}}, blob(k)))
+		return lib.Continue
+	}
 	oc.Write(lib.SimpleResponse(200, "OK", []lib.Field{{"X-Vid", req.Get1("X-Vid")}, {"X-Peer", oc.Peer.Name}}, []byte("ok")))
 	return lib.Continue
 }
@@ -116,6 +132,9 @@ func newWorld(c pcfg) *world {
 			cfg.MITM = m
 			if c.exclude {
 				cfg.MITMDomains = forwarder.MatchFunc(func(h string) bool { return h != "tunnel.test" })
+				// a listener with a (very high) read limit: its connections go through the limiter's
+				// wrapper, so tunnels are copied through the proxy's own buffers
+				cfg.ReadLimit = 1 << 30
 			}
 		},
 		Transport: func(tc *forwarder.HTTPTransportConfig) {
@@ -280,6 +299,7 @@ func main() {
 		originVerification(run, w, c, base+900_000, root)
 		if c.exclude {
 			excluded(run, w, base+950_000)
+			excludedConcurrent(run, w, base+950_100)
 			// whatever the tunnelled CONNECTs left behind must not change origin verification
 			// (hosts not contacted before, so that no pooled upstream connection hides the verification)
 			originVerification(run, w, c, base+960_000, root, "late-valid", "proxyname", "wrongname")
@@ -297,6 +317,7 @@ func main() {
 	run.Floor("bad_origin_checks", 16)
 	run.Floor("insecure_bad_origin_reached", 4)
 	run.Floor("aged_certificate_handshakes", 20)
+	run.Floor("excluded_tunnel_bodies_verified", 40)
 	wiring.Run(run, "C07")
 	run.Finish()
 }
@@ -428,6 +449,39 @@ func originVerification(run *lib.Run, w *world, c pcfg, base int, root *lib.RNG,
 
 // excluded: a CONNECT to a host excluded by mitm-domains is tunnelled untouched: the client
 // sees the origin's own certificate.
+// excludedConcurrent: eight untouched tunnels carry different 192 KiB bodies at the same time;
+// every client must receive exactly the bytes its origin request produced.
+func excludedConcurrent(run *lib.Run, w *world, idx int) {
+	if !run.Want(idx) {
+		return
+	}
+	run.Case(idx, "excluded-host-tunnelled|concurrent-data", nil)
+	var wg sync.WaitGroup
+	for k := 0; k < 8; k++ {
+		wg.Add(1)
+		go func(k int) {
+			defer wg.Done()
+			hs, err := handshake(w.p, target{authority: "tunnel.test:443", host: "tunnel.test", sni: "tunnel.test", want: "tunnel.test"})
+			if err != nil {
+				run.Violation("excluded-host-not-tunnelled", err.Error(), idx, nil)
+				return
+			}
+			defer hs.conn.Close()
+			for j := 0; j < 4; j++ {
+				n := k*10 + j
+				fmt.Fprintf(hs.conn, "GET /blob/%d HTTP/1.1\r\nHost: tunnel.test\r\nX-Vid: b%d\r\n\r\n", n, n)
+				m, pst, rerr := hs.st.ReadResponse("GET", 20*time.Second)
+				if pst != lib.POK || !bytes.Equal(m.Body, blob(n)) {
+					run.Violation("excluded-tunnel-bytes-altered", fmt.Sprintf("8 untouched tunnels in use at once: the body of /blob/%d did not arrive intact (%v, %v)", n, pst, rerr), idx, nil)
+					return
+				}
+				run.Count("excluded_tunnel_bodies_verified", 1)
+			}
+		}(k)
+	}
+	wg.Wait()
+}
+
 func excluded(run *lib.Run, w *world, base int) {
 	for i := 0; i < 6; i++ {
 		idx := base + i
